@@ -223,7 +223,12 @@ func GetExecutable(c *Context, l *Logger, hash string) ([]byte, error) {
 		l.Debug(":card_file_box: Found data source hash: %s in cache file", hash)
 	}
 
-	l.Debug(":balloon: Received data source hash: %s content: %q", hash, resValue[:32])
+	// only a preview is logged; executables may be shorter than the preview length
+	preview := resValue
+	if len(preview) > 32 {
+		preview = preview[:32]
+	}
+	l.Debug(":balloon: Received data source hash: %s content: %q", hash, preview)
 	return resValue, nil
 }
 
